@@ -76,8 +76,9 @@ def gather_rows(out, vres):
     return info[0]
 
 
-def coverage_selftest(out):
+def coverage_selftest():
     """Vacuity: both machine actions must have been taken (TLC -coverage on the quick bound)."""
+    out = C.workdir("prec_cov_out")
     res = C.run_tlc("MC_Prec", "MC_Prec.cfg", workers=4, timeout=900, coverage=True,
                     env_extra={"VERIF_OUT": out, "VERIF_SEED": C.seed()}, name="prec_coverage")
     C.require_tlc_ok(res, "MC_Prec with coverage")
@@ -121,7 +122,7 @@ def run(tier):
     tinfo = tinfo[0]
 
     if thorough:
-        cres = coverage_selftest(out)
+        cres = coverage_selftest()
         chk.add_tlc("MC_Prec(coverage)", cres, "vacuity self-test: Shift and Reduce both taken")
 
     # ---- evidence
